@@ -89,7 +89,7 @@ def count(ctx, trace):
 
 
 def brief(e):
-    keep = ('op', 'id', 'm', 'F', 'custom', 'nilrecv', 'sret', 'pred', 'av', 'cx', 'passed', 'calls', 'ctor', 'got', 'err', 'yields', 'panic', 'msg')
+    keep = ('op', 'id', 'm', 'F', 'custom', 'nilrecv', 'sret', 'pred', 'av', 'cx', 'passed', 'calls', 'ctor', 'got', 'err', 'yields', 'seqnil', 'panic', 'msg')
     return {k: e[k] for k in keep if k in e}
 
 
